@@ -427,6 +427,7 @@ def run(ctx, rep):
     from sa import dtypes
     rep.rule('C08.T', "times / dates given as Python numbers enter the computation at the requested precision: a tensor built from them without a dtype (torch's default float32) is neither computed with nor converted afterwards")
     dtypes.check_default_precision(ctx, rep, 'C08.T', ['torchtree.evolution.coalescent'], 3)
+    dtypes.check_default_precision_attributes(ctx, rep, 'C08.T', ['torchtree.evolution.coalescent'])
     dtypes.check_work_buffers(ctx, rep, 'C08.T', ['torchtree.evolution.coalescent'])        # no such array today: the rule is kept alive by its embedded example
     rep.rule('C08.O', "vectors in the order of the argument and vectors in sorted order are kept apart: element-wise operations, masked selections, gathers and scatters combine one family only (order-kind analysis of every sorting method of coalescent.py)")
     from sa import orders
